@@ -37,3 +37,38 @@ Definition sym_body (f : mfunc) (kw : env) : result (list val) :=
   | [_] => Ok [sym_value (fret f) app]
   | os => Ok (map (fun o => sym_value (fret f) (s "out(" ++ o ++ s ";" ++ app ++ s ")")) os)
   end.
+
+(* ---------- element values that are themselves sequences (harness option fd["wrap"] in {tuple, list, nd}) ----------
+   A wrapped function returns, per output / per internal element, the PAIR (base, "#") - as a tuple, a list or a
+   1-d object ndarray - instead of the string base.  The model's values are strings, and the harness renders
+   sequences as "[a,b]" (mapsym.canon), so the element value is the string  [base,#]  for all three kinds.
+   `wf`    : names of the wrapped functions
+   `wouts` : their output names; for a parameter produced by a wrapped function the structural function also logs what
+             it was handed:  ~e  one element (the pair itself),  ~a<k>  a k-d object array of pairs - this is what tells
+             a 1-d array of pairs from an (n, 2) array of strings, which `canon` cannot.
+   With wf = wouts = [] this is sym_body. *)
+Definition wrap_str (base : str) : str := s "[" ++ base ++ s ",#]".
+
+Definition arg_tag (v : val) : str :=
+  match v with VS _ => s "~e" | VA a => s "~a" ++ dec (length (shp a)) end.
+
+Definition sym_app_w (wouts : list str) (f : mfunc) (kw : env) : str :=
+  fname f ++ s "("
+  ++ join (s ",") (map (fun pv => fst pv ++ (if mem_str (fst pv) wouts then arg_tag (snd pv) else [])
+                                  ++ s "=" ++ canon (snd pv)) kw)
+  ++ s ")".
+
+Definition sym_value_w (w : bool) (ret : list nat) (base : str) : val :=
+  let wr (x : str) := if w then wrap_str x else x in
+  match ret with
+  | [] => VS (wr base)
+  | _ => VA (nd_of_fun ret (fun jj => wr (s "elem(" ++ base ++ s ";" ++ join (s ",") (map dec jj) ++ s ")")))
+  end.
+
+Definition sym_body_w (wf wouts : list str) (f : mfunc) (kw : env) : result (list val) :=
+  let app := sym_app_w wouts f kw in
+  let w := mem_str (fname f) wf in
+  match fouts f with
+  | [_] => Ok [sym_value_w w (fret f) app]
+  | os => Ok (map (fun o => sym_value_w w (fret f) (s "out(" ++ o ++ s ";" ++ app ++ s ")")) os)
+  end.
